@@ -6,9 +6,9 @@ package formats
 
 // C25 CSV: a scalar value is appended to the cell builder as: NULL -> nothing (empty field), Int -> strconv.FormatInt
 // base 10 (exact), Float -> strconv.FormatFloat('f', -1, 64) (shortest exact decimal), Boolean -> FormatBool,
-// String -> the bytes verbatim; composite values are outside CSV's domain (C07: they panic).
+// String -> the bytes verbatim; composite values (outside CSV's domain) are printed in their text form — never a panic (C07).
 //@ func FormatCSVValue
-//@   requires builder != nil
+//@   requires builder != nil && 0 <= value.TypeID && value.TypeID <= 9
 //@   ensures null: value.TypeID == 0 ==> built(builder) == old(built(builder))
 //@   ensures int: value.TypeID == 1 ==> built(builder) == old(built(builder)) + extStr("strconv.FormatInt", value.Int, 10)
 //@   ensures float: value.TypeID == 2 ==> built(builder) == old(built(builder)) + extStr("strconv.FormatFloat", value.Float, 102, 0 - 1, 64)
@@ -17,6 +17,7 @@ package formats
 // One cell per value, in order, each built from an empty builder; the row is handed to csv.Writer once (quoting is
 // encoding/csv's, trusted).
 //@ func (*CSVFormatter).Write
+//@   requires forall(j, 0, len(values), 0 <= values[j].TypeID && values[j].TypeID <= 9)
 //@   loop 1 invariant cells: 0 <= $k && $k <= len(values) && len(row) == len(values) && built(builder) == ""
 //@   loop 1 step cell: values[i].TypeID == 4 ==> row[i] == values[i].Str
 //@   loop 1 step cellnull: values[i].TypeID == 0 ==> row[i] == ""
